@@ -208,7 +208,15 @@ theorem ew_conformable (a b : Hdr) :
     Gen.Matrix.is_elementwise_operation_conformable a b = .ok (a.ewConformable b) := by
   simp only [Gen.Matrix.is_elementwise_operation_conformable, Hdr.ewConformable, Hdr.major,
     Hdr.minor, pure, Except.pure]
-  by_cases h : a.order = b.order <;> simp [h] <;> rfl
+  -- orientation of the equalities in the source does not matter
+  have o1 : (b.shape.minor = a.shape.major) = (a.shape.major = b.shape.minor) := propext eq_comm
+  have o2 : (b.shape.major = a.shape.minor) = (a.shape.minor = b.shape.major) := propext eq_comm
+  have o3 : (b.shape = a.shape) = (a.shape = b.shape) := propext eq_comm
+  try simp only [o1, o2, o3]
+  by_cases h : a.order = b.order
+  · simp [h]
+  · by_cases h1 : a.shape.major = b.shape.minor <;> by_cases h2 : a.shape.minor = b.shape.major <;>
+      simp [h, h1, h2]
 
 theorem mul_conformable (a b : Hdr) :
     Gen.Matrix.is_multiplication_like_operation_conformable a b = .ok (a.mulConformable b) := by
